@@ -1,6 +1,7 @@
 import PacketVerif.Model.Dhcp4Srv
 import PacketVerif.Model.Dhcp4Frame
 import PacketVerif.Model.Dhcp4ReplyBytes
+import PacketVerif.Model.Dhcp4Frames
 namespace PV.Drv.Dhcp4Srv
 open PV PV.Model.Dhcp4Srv
 
@@ -175,13 +176,24 @@ def checkNew (n : NewCfg) (dump : String) : String :=
     replies, forged DECLINE (client direction) — joined by ` / `. -/
 
 open PV.Model.Dhcp4Frame in
-def parseRawEv (s : String) : Option (Rx × Bytes) :=
+def parseRawEv4 (dir src extra hex : String) : Option (Rx × Bytes) := do
+  let p ← fromHex hex
+  if dir != "c" && dir != "s" then none
+  some ({ srcIP := ← nat? src, dstPort := if dir == "s" then 68 else 67, cap := p.length + (← nat? extra) }, p)
+
+open PV.Model.Dhcp4Frame in
+/-- an event, with the Ethernet source of its frame when the line names it (fifth field) -/
+def parseRawEvM (s : String) : Option (Rx × Bytes × Option Bytes) :=
   match s.splitOn ":" with
-  | [dir, src, extra, hex] => do
-    let p ← fromHex hex
-    if dir != "c" && dir != "s" then none
-    some ({ srcIP := ← nat? src, dstPort := if dir == "s" then 68 else 67, cap := p.length + (← nat? extra) }, p)
+  | [dir, src, extra, hex] => (parseRawEv4 dir src extra hex).map (fun e => (e.1, e.2, none))
+  | [dir, src, extra, hex, mac] => do
+    let e ← parseRawEv4 dir src extra hex
+    let m ← fromHex mac
+    some (e.1, e.2, some m)
   | _ => none
+
+open PV.Model.Dhcp4Frame in
+def parseRawEv (s : String) : Option (Rx × Bytes) := (parseRawEvM s).map (fun e => (e.1, e.2.1))
 
 def errStr : Option Err → String
   | none => "nil"
@@ -210,18 +222,59 @@ def showBytes (rx : Rx) (p : Bytes) (r : Result) (ord : String) : String :=
       | .hang => "hang")) ","
   | _, _ => "bad-ord"
 
+def showOutB (o : Outcome Bytes) : String :=
+  match o with
+  | .ok [] => "nil"
+  | .ok b => toHex b
+  | .err e => "err " ++ e.toString
+  | .panic => "panic"
+  | .hang => "hang"
+
+/-- the NIC of the `%` section: host MAC, router MAC (their addresses are the configuration's) -/
+structure Nic where
+  hostMAC : Bytes
+  routerMAC : Bytes
+
+open PV.Model.Dhcp4Frame PV.Model.Dhcp4Opt in
+/-- `frames=`: the whole Ethernet frame of every reply of the event, `Model.Dhcp4Frame.replyFrame` around `replyBytes`
+    (pool buffer of 1522 zero bytes: every byte of the frame is written), from the host's NIC to the destination
+    selected by the REQUEST frame's Ethernet source `mac` and IPv4 source -/
+def showFrames (cfg : Cfg) (nic : Nic) (mac : Bytes) (rx : Rx) (p : Bytes) (r : Result) (ord : String) : String :=
+  match parseOptions p, fromHex ord with
+  | .ok o, some t =>
+    showList (r.replies.map (fun rep =>
+      showOutB (do
+        let msg ← replyBytes p (zeros (rx.cap - p.length)) (optGet o 55) rep t.eraseDups
+        if msg.isEmpty then pure [] else replyFrame (zeros 1522) nic.hostMAC cfg.host mac rx rep msg))) ","
+  | _, _ => "bad-ord"
+
+open PV.Model.Dhcp4Frame PV.Model.Dhcp4Opt in
+/-- `dframes=`: the forged DECLINE of the event (client direction), `declineFrame` around `declineMsg` -/
+def showDecline (cfg : Cfg) (nic : Nic) (p : Bytes) (r : Result) (dord : String) : String :=
+  if !r.forged then "-" else
+  match parseOptions p, fromHex dord with
+  | .ok o, some t =>
+    showOutB (do
+      let msg ← declineMsg (zeros 1522) p o t.eraseDups
+      if msg.isEmpty then pure [] else declineFrame (zeros 1522) nic.hostMAC cfg.host nic.routerMAC cfg.router msg)
+  | _, _ => "bad-ord"
+
 open PV.Model.Dhcp4Frame in
-def rawGroups (cfg : Cfg) (now : Nat) : List String → List String → List String → List String
-  | ev :: evs, pre :: pres, ords =>
-    (match parseRawEv ev, parseState pre with
-     | some (rx, p), some s =>
+def rawGroups (cfg : Cfg) (now : Nat) (nic : Option Nic) : List String → List String → List String → List String → List String
+  | ev :: evs, pre :: pres, ords, dords =>
+    (match parseRawEvM ev, parseState pre with
+     | some (rx, p, mac), some s =>
        outcomeStr (fun r => showRaw rx r ++ (match ords with
                                              | ord :: _ => " bytes=" ++ showBytes rx p r ord
-                                             | [] => "")) (processRaw cfg s now rx p)
+                                             | [] => "")
+                              ++ (match nic, mac, ords, dords with
+                                  | some nic, some mac, ord :: _, dord :: _ =>
+                                    " frames=" ++ showFrames cfg nic mac rx p r ord ++ " dframes=" ++ showDecline cfg nic p r dord
+                                  | _, _, _, _ => "")) (processRaw cfg s now rx p)
      | none, _ => "bad-ev"
-     | _, none => "bad-pre") :: rawGroups cfg now evs pres ords.tail
-  | [], [], _ => []
-  | _, _, _ => ["bad-groups"]
+     | _, none => "bad-pre") :: rawGroups cfg now nic evs pres ords.tail dords.tail
+  | [], [], _, _ => []
+  | _, _, _, _ => ["bad-groups"]
 
 def handle (cmd : String) (args : List String) : Option String :=
   match cmd, args with
@@ -229,7 +282,14 @@ def handle (cmd : String) (args : List String) : Option String :=
     match parseCfg cfg, nat? now with
     | some cfg, some now =>
       let (pres, ords) := pres.span (· != "#")
-      some (" / ".intercalate (rawGroups cfg now (evs.splitOn ";") pres ords.tail))
+      let (ords, tl) := ords.tail.span (· != "%")
+      let nic : Option Nic × List String := match tl with
+        | _ :: h :: r :: dords =>
+          (match fromHex h, fromHex r with
+           | some h, some r => some { hostMAC := h, routerMAC := r }
+           | _, _ => none, dords)
+        | _ => (none, [])
+      some (" / ".intercalate (rawGroups cfg now nic.1 (evs.splitOn ";") pres ords nic.2))
     | none, _ => some "bad-cfg"
     | _, none => some "bad-now"
   | "dhcp.raw", _ => some "bad-raw"
